@@ -530,10 +530,41 @@ void integer_boundaries()
 
 namespace c02
 {
+// ---------------------------------------------------------------- long repetitions (scale lattice)
+// "repetitions ... are greedy and never fail": *char_ on n characters yields those n characters, and the space skipper
+// in front of a literal skips n blanks, for n up to 2^20 (a repetition whose stack use grows with n dies under ASan)
+static void long_repetitions()
+{
+  namespace fp = fcppt::parse;
+  for (std::size_t n : {std::size_t(0), std::size_t(1), std::size_t(17), std::size_t(4096), std::size_t(65536), std::size_t(1) << 20})
+  {
+    if (vrt::begin("long_repetition:*char_", n))
+    {
+      vrt::nontrivial(n >= 4096);
+      std::string in(n, 'a');
+      if (n > 2)
+        in[n / 2] = 'b';
+      auto const parser = *fp::char_{};
+      auto const r = fp::parse_string(parser, std::string(in));
+      bool const ok = r.has_success() && std::string(r.get_success_unsafe().begin(), r.get_success_unsafe().end()) == in;
+      VRT_CHECK(ok, "static:outcome:long_repetition:*char_", "*char_ on %zu characters: %s", n, r.has_success() ? "wrong value" : "failed");
+    }
+    if (vrt::begin("long_repetition:space_skipper", n))
+    {
+      vrt::nontrivial(n >= 4096);
+      std::string const in = std::string(n, ' ') + "x";
+      auto const parser = fp::literal{'x'};
+      auto const r = fp::phrase_parse_string(parser, std::string(in), fp::skipper::space());
+      VRT_CHECK(r.has_success(), "static:outcome:long_repetition:space_skipper", "space() did not skip %zu blanks", n);
+    }
+  }
+}
+
 void register_static()
 {
   vrt::shard("static/typed_results", [] { typed_results(); }, 120);
   vrt::shard("static/recursive_grammar", [] { recursive_grammars(); }, 120);
+  vrt::shard("static/long_repetitions", [] { long_repetitions(); }, 120);
   vrt::shard("static/float", [] { float_leaves(); }, 120);
   vrt::shard("static/integer_boundaries", [] { integer_boundaries(); }, 120);
 }
